@@ -5,7 +5,7 @@ from props import _mp4family as fam
 
 def gen(run):
     quick = run.tier == "quick"
-    yield from P.standard_stream(run, 300 if quick else 6000, 100 if quick else 3000, 3 if quick else 5)
+    yield from P.standard_stream(run, 300 if quick else 30000, 100 if quick else 15000, 3 if quick else 5)
 
 
 fam.make(globals(), "C03", ["C03"], gen)
